@@ -154,11 +154,15 @@ class FS:
                 fs.conns.append(c)
                 return c
 
-        self.saved = (mod.os, mod.tempfile, mod.shutil, mod.sqlite3)
-        mod.os, mod.tempfile, mod.shutil, mod.sqlite3 = FakeOS, FakeTemp, FakeShutil, FakeSqlite
+        # (a module the working tree does not import is simply not there to be replaced)
+        self.saved = {n: mod.__dict__[n] for n in ("os", "tempfile", "shutil", "sqlite3") if n in mod.__dict__}
+        for n, fake in (("os", FakeOS), ("tempfile", FakeTemp), ("shutil", FakeShutil), ("sqlite3", FakeSqlite)):
+            if n in self.saved:
+                setattr(mod, n, fake)
 
     def uninstall(self, mod):
-        mod.os, mod.tempfile, mod.shutil, mod.sqlite3 = self.saved
+        for n, real in self.saved.items():
+            setattr(mod, n, real)
 
     def power_off(self):
         """after a crash: open connections vanish, uncommitted work is lost (files keep committed data)"""
